@@ -8,6 +8,7 @@
 From Coq Require Import Arith List Bool.
 From Mpc Require Import Proto.Mesh Proto.MeshProof Proto.MeshFixedProof Proto.MeshLive.
 Import ListNotations.
+From Mpc Require Gen.State Base.StateExpected Base.StateCheck Base.StatePkgs.
 
 (* REGRESSION RECORD (finding F11, fixed in /repo by commit 753a572): with the
    old three-step acceptConn the property is REFUTED.  There are a number of
@@ -124,3 +125,16 @@ Theorem C19_no_cross_party :
      (l_from (g_link st l) = j /\ l_to (g_link st l) = i)).
 Proof. exact fixed_conn_endpoints. Qed.
 Print Assumptions C19_no_cross_party.
+
+(* STATE INVENTORY (finite obligation on the model regenerated from the source, checked by
+   computation).  The struct fields and package-level variables of the Go packages this
+   property is anchored in — p2p — as emitted from /repo's current
+   source by harness/gen_state.go (Gen/State.v) are exactly those the models above were written
+   against (Base/StateExpected.v).  A new field or variable (a cache, a memo, a pool, a counter,
+   a changed field type) is state the models do not have: this obligation then breaks and the
+   property is no longer shown to hold until the change has been reviewed against the model. *)
+Theorem C19_state_inventory :
+  Mpc.Base.StateCheck.state_unchanged Mpc.Gen.State.state_inventory Mpc.Base.StateExpected.expected_state
+    Mpc.Base.StatePkgs.pkgs_C19 = true.
+Proof. vm_compute. reflexivity. Qed.
+Print Assumptions C19_state_inventory.
